@@ -435,7 +435,10 @@ func (ego *list) Equals(another List) bool {
 }
 
 func (ego *list) Concat(another List) List {
-	newList := &list{val: append(ego.val, another.getVal().(*list).val...)}
+	other := another.getVal().(*list).val
+	val := make([]field, 0, len(ego.val)+len(other))
+	val = append(append(val, ego.val...), other...)
+	newList := &list{val: val}
 	newList.Init(newList)
 	return newList
 }
